@@ -18,6 +18,7 @@ SCHEMAS = [
     (["i16", "sl", "arr"], 1), (["bytes", "f64"], 2), (["str", "str", "i8"], 3), (["u16", "bool", "f32", "int"], 4),
     (["i64", "cc"], 1), (["str", "cc", "i32"], 1),      # a column with a registered custom codec
     # every built-in key type appears as a compared and hashed column
+    (["i32", "s3"], 1), (["i8", "s3", "s3"], 1),
     (["u8", "u32"], 2), (["u64", "uint", "uptr"], 3), (["i32", "i16", "int"], 3), (["f32", "f64"], 2), (["bytes", "u8"], 2),
 ]
 
